@@ -137,6 +137,31 @@ def ge_match_guard_if_chain(text, **_):
     return text, n
 
 
+@R.rule('ge-label-loops')
+def ge_label_loops(text, labels=None, continues=None, **_):
+    """COMMENT-ONLY annotation: ` /*@<label>*/` is written after the keyword of the i-th loop (`loop` / `while`, textual order) and after the
+    i-th `continue;`. Verus reports a violated loop `decreases` at the loop header (or at the `continue`), and the framework names a failed
+    obligation after the label found on the reported lines; a comment changes no token of the code."""
+    from vc import extract as X
+    labels, continues = labels or [], continues or []
+    sh = X.fn_shape(text)
+    if len(sh.loops) != len(labels):
+        raise Undecided('ge-label-loops: %d loops, %d labels' % (len(sh.loops), len(labels)))
+    toks = L.code_tokens(text)
+    conts = [t for i, t in enumerate(toks) if t[0] == 'ident' and L.tok_text(text, t) == 'continue' and _tt(text, toks, i + 1) == ';']
+    if len(conts) != len(continues):
+        raise Undecided('ge-label-loops: %d `continue;`, %d labels' % (len(conts), len(continues)))
+    edits = []
+    for (kw, _b), lab in zip(sh.loops, labels):
+        m = re.match(r'loop|while|for', text[kw:])
+        edits.append((kw + m.end(), ' /*@%s*/' % lab))
+    for t, lab in zip(conts, continues):
+        edits.append((t[2] + 1, ' /*@%s*/' % lab))
+    for pos, ins in sorted(edits, reverse=True):
+        text = text[:pos] + ins + text[pos:]
+    return text, max(len(edits), 1)
+
+
 EXTRA_RULES = [
     ('ge-local-const', r'\bconst ([A-Z_]+): (i32|usize) = (\d+);', r'let \1: \2 = \3;',
      'item statement `const NAME: T = <integer literal>;` inside a fn body -> `let NAME: T = <literal>;` at the same place (Verus has no '
@@ -147,24 +172,45 @@ EXTRA_RULES = [
 # contract fragments
 # ------------------------------------------------------------------------------------------------------------------------------
 REQ = 'gfirst(old(p)), nosoft(old(p))'
-ENS = 'nosoft(final(p)), gkeep(old(p), final(p))'
+ENS = ('nosoft(final(p)) /*@C02.grammar.nosoft-preserved*/,\n'
+       '        gkeep(old(p), final(p)) /*@C02.grammar.no-progress-keeps-token-kind*/')
 ENS_CM = ENS + ',\n        r matches Ok(cm) ==> cm_live(&cm, final(p)) /*@C02.expr.result-marker-live*/'
 PROG = 'final(p).token_index > old(p).token_index'
-HIDE = 'hide(l3::events_ok);'
+# the quantifiers of events_ok and tokens_ok are kept out of the queries of the grammar fns (`hide` = converse of `reveal`): the only facts
+# about tokens_ok they need, "not TkEof <=> not at the end" and "token_index < 2^31", are postconditions of LuaParser::current_token (BASE_PATCH)
+HIDE = 'hide(l3::events_ok); hide(tokens_ok);'
 # loop invariant shared by every loop: the standard contract "so far"
 INV = 'ginv(p), gstep(old(p), p), gfirst(p), nosoft(p),'
 ERR = ['ge-drop-push-error']
+# termination of the recursion: lexicographic measure (tokens not yet consumed, rank); `could not prove termination` is reported at the
+# call, so every recursive call that relies on "a token was consumed since the entry" (callee rank >= caller rank) is preceded by DEC
+TERM = ' /*@C02.expr.recursion-terminates*/'
+DEC = 'proof { assert(grem(p) < grem(old(p))); /*@C02.expr.recursion-consumed-a-token*/ }'
+
+
+def dec(anchor, where='before'):
+    return (anchor, where, DEC)
 
 
 def loop(inv, dec, except_break=None):
     return (('invariant_except_break\n    ' + except_break + '\n') if except_break else '') + 'invariant\n    ' + INV + '\n    ' + inv + '\ndecreases ' + dec
 
 
-def e_fn(**kw):
+def e_fn(rank=None, labels=None, continues=None, **kw):
+    """labels / continues: property labels of the loops / `continue` statements in textual order (rule ge-label-loops)"""
     d = {'body_first': HIDE, 'attrs': '#[verifier::spinoff_prover]'}
     d.update(kw)
+    if rank is not None:
+        d['decreases'] = 'grem(old(p)), %dnat' % rank + TERM
+    if labels:
+        d['rules'] = list(d.get('rules', [])) + [('ge-label-loops', {'labels': labels, 'continues': continues or []})]
+        for i, l in enumerate(labels):
+            d['loops'][i] = d['loops'][i] + ' /*@%s*/' % l
     return d
 
+
+M_INV = 'm_live(&m, p), p.mark_level > old(p).mark_level,'
+RECOVERY = 'C02.expr.recovery-loop-terminates'
 
 ITEMS = {
     'parse_expr': e_fn(
@@ -173,26 +219,41 @@ ITEMS = {
     'parse_sub_expr': e_fn(
         ret='r', rank=40, requires=REQ, rules=ERR + ['ge-local-const'],
         ensures=ENS_CM + ',\n        r is Ok ==> ' + PROG + ' /*@C02.expr.progress*/',
-        loops={0: loop('cm_live(&cm, p), p.token_index > old(p).token_index,', 'grem(p) /*@C02.expr.binop-loop-terminates*/')}),
+        labels=['C02.expr.binop-loop-terminates'], continues=['C02.expr.binop-loop-terminates'],
+        loops={0: loop('cm_live(&cm, p), p.token_index > old(p).token_index,', 'grem(p)')},
+        proof=[dec(r'match parse_sub_expr\(p, UNARY_PRIORITY\) \{'),
+               dec(r'match parse_sub_expr\(p, 0\) \{(?=[\s\S]*p\.leave_ternary\(\);)'),
+               dec(r'match parse_sub_expr\(p, 0\) \{(?![\s\S]*p\.leave_ternary\(\);)'),
+               dec(r'match parse_sub_expr\(p, bop\.get_priority\(\)\.right\) \{')]),
     'parse_simple_expr': e_fn(
         ret='r', rank=30, requires=REQ, rules=ERR + ['ge-drop-error-msg', ('ge-match-guard-if-chain', {'count': 1})],
         ensures=ENS_CM + ',\n        (r is Ok || old(p).current_token is TkName) ==> ' + PROG + ' /*@C02.expr.simple-progress*/'),
     'parse_closure_expr': e_fn(
         ret='r', requires=REQ, rules=ERR,
-        decreases='grem(old(p)), (if old(p).current_token is TkFunction { 20int } else { 300int })',
-        ensures=ENS_CM + ',\n        (r is Ok && old(p).current_token is TkFunction) ==> ' + PROG + ' /*@C02.expr.progress*/'),
+        # at `function` (the call from parse_simple_expr, same position) the keyword is consumed before parse_block is reached; without it
+        # (the calls from stat.rs, after `function name`) nothing may be consumed before parse_block (`local function f return 1 end`),
+        # so there the rank is above parse_block's (210)
+        decreases='grem(old(p)), (if old(p).current_token is TkFunction { 20int } else { 300int })' + TERM,
+        ensures=ENS_CM + ',\n        (r is Ok && old(p).current_token is TkFunction) ==> ' + PROG + ' /*@C02.expr.progress*/',
+        proof=[(r'parse_block\(p\)\?;', 'before',
+                'proof { assert(grem(p) < grem(old(p)) || !(old(p).current_token is TkFunction)); /*@C02.expr.recursion-consumed-a-token*/ }')]),
+    # the one heavy query of the expr side: a straight-line body of ~25 parser states (5 marks, 5 completes, 4 bumps, 3 grammar calls) behind
+    # three successive branch points; Z3 re-derives the ev_mono / seq-push facts per path (measured 17-22M rlimit units depending on
+    # unrelated text; hiding ev_mono behind opaque chain lemmas, join-point summaries and hide(ranges) were tried and do not lower it), so it
+    # gets 3x the default budget (~5 s) instead of sitting at 60-100% of the default
     'parse_short_function': e_fn(
-        ret='r', rank=20, rules=ERR,
+        ret='r', rank=20, rules=ERR, attrs='#[verifier::spinoff_prover]\n#[verifier::rlimit(30)]',
         requires=REQ + ',\n        old(p).current_token is TkName || old(p).current_token is TkLogicalOr || old(p).current_token is TkBitOr',
-        ensures=ENS_CM + ',\n        ' + PROG + ' /*@C02.expr.progress*/'),
+        ensures=ENS_CM + ',\n        ' + PROG + ' /*@C02.expr.progress*/',
+        proof=[dec(r'parse_block\(p\)\?;'), dec(r'match parse_expr\(p\) \{')]),
     'parse_param_list': e_fn(
         ret='r', rank=10, requires=REQ + ',\n        !(open_token is TkEof), !(close_token is TkEof)', rules=ERR,
         proof=[(r'match parse_param_name\(p, &mut is_vararg\) \{', 'before', 'let ghost ti0 = p.token_index;')],
         ensures=ENS_CM + ',\n        r is Ok,\n        old(p).current_token == open_token ==> ' + PROG + ' /*@C02.expr.progress*/',
-        loops={0: loop('m_live(&m, p), p.mark_level > old(p).mark_level,\n    old(p).current_token == open_token ==> p.token_index > old(p).token_index,\n    gkeep(old(p), p),',
-                       'grem(p) /*@C02.expr.param-loop-terminates*/'),
-               1: loop('m_live(&m, p), p.mark_level > old(p).mark_level,\n    old(p).current_token == open_token ==> p.token_index > old(p).token_index,\n    gkeep(old(p), p), p.token_index >= ti0,',
-                       'grem(p) /*@C02.expr.recovery-loop-terminates*/')}),
+        labels=['C02.expr.param-loop-terminates', RECOVERY],
+        loops={0: loop(M_INV + '\n    old(p).current_token == open_token ==> p.token_index > old(p).token_index,\n    gkeep(old(p), p),', 'grem(p)'),
+               1: loop(M_INV + '\n    old(p).current_token == open_token ==> p.token_index > old(p).token_index,\n    gkeep(old(p), p), p.token_index >= ti0,',
+                       'grem(p)')}),
     'parse_param_name': e_fn(
         ret='r', rank=5, requires=REQ, rules=ERR,
         ensures=ENS_CM + ',\n        r is Ok ==> ' + PROG + ' /*@C02.expr.progress*/'),
@@ -200,42 +261,50 @@ ITEMS = {
         ret='r', rank=20, rules=ERR + ['ge-local-const'],
         requires=REQ + ',\n        old(p).current_token is TkLeftBrace',
         ensures=ENS_CM + ',\n        r is Ok,\n        ' + PROG + ' /*@C02.expr.progress*/',
-        loops={0: loop('m_live(&m, p), p.mark_level > old(p).mark_level, p.token_index > old(p).token_index,',
-                       'grem(p) /*@C02.expr.field-loop-terminates*/'),
-               1: loop('m_live(&m, p), p.mark_level > old(p).mark_level, p.token_index > old(p).token_index,\n'
-                       '    MAX_LOOKAHEAD == 50, lookahead_count <= 50,',
-                       '50 - lookahead_count /*@C02.expr.lookahead-loop-terminates*/',
-                       except_break='1 <= brace_count <= lookahead_count + 1,')}),
+        labels=['C02.expr.field-loop-terminates', 'C02.expr.lookahead-loop-terminates'],
+        loops={0: loop(M_INV + ' p.token_index > old(p).token_index,', 'grem(p)'),
+               1: loop(M_INV + ' p.token_index > old(p).token_index,\n    MAX_LOOKAHEAD == 50, lookahead_count <= 50,', '50 - lookahead_count',
+                       except_break='1 <= brace_count <= lookahead_count + 1, /*@C02.expr.brace-counter-no-overflow*/')},
+        proof=[dec(r'match parse_field_with_recovery\(p\) \{(?=\s*Ok\(cm\) => match)'),
+               dec(r'match parse_field_with_recovery\(p\) \{(?=\s*Ok\(cm\) => \{)')]),
     'parse_field_with_recovery': e_fn(
         ret='r', rank=60, requires=REQ, rules=ERR,
         ensures=ENS_CM + ',\n        r is Ok',
-        loops={0: loop('m_live(&m, p), p.mark_level > old(p).mark_level, p.token_index > old(p).token_index,',
-                       'grem(p) /*@C02.expr.recovery-loop-terminates*/')}),
+        labels=[RECOVERY],
+        loops={0: loop(M_INV + ' p.token_index > old(p).token_index,', 'grem(p)')}),
     'recover_to_table_boundary': e_fn(
         rank=5, requires=REQ, ensures=ENS,
-        loops={0: loop('gkeep(old(p), p),', 'grem(p) /*@C02.expr.recovery-loop-terminates*/')}),
+        labels=[RECOVERY],
+        loops={0: loop('gkeep(old(p), p),', 'grem(p)')}),
     'parse_suffixed_expr': e_fn(
         ret='r', rank=20, requires=REQ, rules=ERR,
         ensures=ENS_CM + ',\n        (r is Ok || old(p).current_token is TkName) ==> ' + PROG + ' /*@C02.expr.progress*/',
-        loops={0: loop('cm_live(&cm, p), p.token_index > old(p).token_index,', 'grem(p) /*@C02.expr.suffix-loop-terminates*/')}),
+        labels=['C02.expr.suffix-loop-terminates'],
+        loops={0: loop('cm_live(&cm, p), p.token_index > old(p).token_index,', 'grem(p)')},
+        proof=[dec(r'match parse_expr\(p\) \{'),
+               dec(r"p\.bump\(\); // consume '\?\.'\s*(?=if let Err\(err\) = parse_args\(p\))", 'after'),
+               dec(r'let m = cm\.precede\(p, LuaSyntaxKind::CallExpr\);\s*(?=if let Err\(err\) = parse_args\(p\))', 'after')]),
     'parse_name_or_special_function': e_fn(
         ret='r', rank=10, rules=[],
         requires=REQ + ',\n        old(p).current_token is TkName',
-        ensures=ENS_CM + ',\n        ' + PROG + ' /*@C02.expr.progress*/'),
+        ensures=ENS_CM + ',\n        ' + PROG + ' /*@C02.expr.progress*/',
+        proof=[dec(r'if let Err\(err\) = parse_args\(p\) \{')]),
     'parse_index_struct': e_fn(
         ret='r', rank=10, requires=REQ, rules=ERR,
-        ensures=ENS + ',\n        r is Ok ==> ' + PROG + ' /*@C02.expr.progress*/'),
+        ensures=ENS + ',\n        r is Ok ==> ' + PROG + ' /*@C02.expr.progress*/',
+        proof=[dec(r'match parse_expr\(p\) \{')]),
     'parse_safe_index_struct': e_fn(
         ret='r', rank=10, requires=REQ, rules=ERR,
-        ensures=ENS),
+        ensures=ENS,
+        proof=[dec(r'match parse_expr\(p\) \{')]),
     'parse_args': e_fn(
         ret='r', rank=25, requires=REQ, rules=ERR,
-        proof=[(r'loop \{(?=\s*match parse_expr\(p\) \{)', 'after', 'let ghost ti0 = p.token_index;')],
+        proof=[(r'loop (?:/\*@[\w.\-]+\*/ )?\{(?=\s*match parse_expr\(p\) \{)', 'after', 'let ghost ti0 = p.token_index;'),
+               dec(r'match parse_expr\(p\) \{')],
         ensures=ENS_CM + ',\n        r is Ok ==> ' + PROG + ' /*@C02.expr.progress*/',
-        loops={0: loop('m_live(&m, p), p.mark_level > old(p).mark_level, p.token_index > old(p).token_index,',
-                       'grem(p) /*@C02.expr.args-loop-terminates*/'),
-               1: loop('m_live(&m, p), p.mark_level > old(p).mark_level, p.token_index > old(p).token_index, p.token_index >= ti0,',
-                       'grem(p) /*@C02.expr.recovery-loop-terminates*/')}),
+        labels=['C02.expr.args-loop-terminates', RECOVERY], continues=['C02.expr.args-loop-terminates'],
+        loops={0: loop(M_INV + ' p.token_index > old(p).token_index,', 'grem(p)'),
+               1: loop(M_INV + ' p.token_index > old(p).token_index, p.token_index >= ti0,', 'grem(p)')}),
 }
 
 # ------------------------------------------------------------------------------------------------------------------------------
@@ -250,6 +319,10 @@ TYPES = {
     'BinaryOperator': {'src': {'file': KO, 'kind': 'enum', 'name': 'BinaryOperator'}, 'attrs': DERIVE_KIND},
     'UNARY_PRIORITY': {'src': {'file': KO, 'kind': 'const', 'name': 'UNARY_PRIORITY'}},
     'PriorityTable': {'src': {'file': KM, 'kind': 'struct', 'name': 'PriorityTable'}},
+    'PRIORITY': {'src': {'file': KO, 'kind': 'const', 'name': 'PRIORITY'}},
+    # `&PRIORITY[*self as usize]`: the index is PROVED in range (24 field-less variants, 25 entries); no contract: the priorities are
+    # not used by any proof (termination of the operator loop does not depend on them)
+    'BinaryOperator::get_priority': {'src': {'file': KO, 'kind': 'fn', 'impl': 'BinaryOperator', 'name': 'get_priority'}, 'place': False},
     'LuaTypeUnaryOperator': {'src': {'file': KT, 'kind': 'enum', 'name': 'LuaTypeUnaryOperator'}, 'attrs': DERIVE_KIND},
     'LuaTypeBinaryOperator': {'src': {'file': KT, 'kind': 'enum', 'name': 'LuaTypeBinaryOperator'}, 'attrs': DERIVE_KIND},
     'LuaTypeTernaryOperator': {'src': {'file': KT, 'kind': 'enum', 'name': 'LuaTypeTernaryOperator'}, 'attrs': DERIVE_KIND},
@@ -267,17 +340,19 @@ LEMMAS = None
 # what the expr side needs from the fns of stat.rs / mod.rs beyond what stat_items.py says (see REQUESTS_TO_STAT.md). stat_items.py
 # already gives: parse_block / expect_token / if_token_bump `requires nosoft, gfirst [, !(token is TkEof)]`, `ensures nosoft`,
 # expect_token `Err ==> *final(p) == *old(p)`, `Ok ==> gprog`, if_token_bump `r ==> gprog`, `!r ==> *final(p) == *old(p)`.
-CROSS_NEEDS = {
-    # no progress => current token kind unchanged (every expr fn ensures gkeep; parse_closure_expr / parse_short_function call parse_block)
-    'parse_block': {'ensures': 'gkeep(old(p), final(p))'},
-    # the converse of `r ==> ..`: at the token, it IS consumed (progress of parse_closure_expr at TkFunction: termination of the recursion
-    # parse_simple_expr -> parse_closure_expr -> parse_block -> .. -> parse_simple_expr, and C02.expr.progress of parse_expr)
-    'if_token_bump': {'ensures': 'old(p).current_token == token ==> ' + PROG},
-}
+CROSS_NEEDS = {}      # both requests of REQUESTS_TO_STAT.md (parse_block gkeep; if_token_bump consumes at the token) are served in stat_items.py
 
 def _mut(name, fn, pattern, repl, expect):
     return {'name': name, 'item': 'g::' + fn, 'pattern': pattern, 'repl': repl, 'expect': expect}
 
+
+BASE_PATCH = {
+    # under the driver invariant the cached kind is TkEof exactly at the end of the token stream (tokens_ok: no token has kind TkEof):
+    # the guard in front of every `p.bump()` of the grammar is a test of `p.current_token()`
+    'LuaParser::current_token': {
+        'ensures+': 'inv(self) ==> ((self.token_index < self.tokens@.len()) == !(r is TkEof)) /*@C02.driver.eof-iff-at-end*/,\n'
+                    '            inv(self) ==> self.token_index < 0x7fff_ffff'},
+}
 
 MUTANTS = [
     # ---- termination of the recursion (decreases grem(old(p)), rank) ----
@@ -285,38 +360,75 @@ MUTANTS = [
     _mut('ge-paren-no-bump', 'parse_suffixed_expr', r'p\.bump\(\);(\s*p\.enter_paren\(\);\s*match parse_expr\(p\))', r'\1', r'parse_suffixed_expr:could-not-prove-termination'),
     _mut('ge-field-reparse-table', 'parse_field_with_recovery', r'LuaTokenKind::TkEof \| LuaTokenKind::TkLocal => \{', r'LuaTokenKind::TkEof | LuaTokenKind::TkLocal => { let _ = parse_table_expr(p);',
          r'parse_field_with_recovery:(could-not-prove-termination|precondition)'),
-    # ---- progress of the loops ----
-    _mut('ge-binop-no-bump', 'parse_sub_expr', r'p\.bump\(\);(\s*match parse_sub_expr\(p, bop\.get_priority\(\)\.right\))', r'\1', r'C02\.expr\.binop-loop-terminates|parse_sub_expr:could-not-prove-termination'),
-    _mut('ge-ternary-no-bump', 'parse_sub_expr', r"p\.bump\(\); // consume '\?'", '', r'C02\.expr\.binop-loop-terminates|parse_sub_expr:could-not-prove-termination'),
-    _mut('ge-recover-no-bump', 'recover_to_table_boundary', r'p\.bump\(\);', '', r'C02\.expr\.recovery-loop-terminates'),
+    _mut('ge-index-no-bump', 'parse_index_struct', r'(LuaTokenKind::TkLeftBracket => \{)\s*p\.bump\(\);', r'\1', r'parse_index_struct:could-not-prove-termination'),
+    # ---- progress of the loops (the obligation is reported at the loop / the `continue`) ----
+    _mut('ge-ternary-no-bump', 'parse_sub_expr', r"p\.bump\(\); // consume '\?'", '', r'parse_sub_expr:decreases-not-satisfied-at-continue'),
+    _mut('ge-recover-no-bump', 'recover_to_table_boundary', r'p\.bump\(\);', '', r'recover_to_table_boundary:decreases-not-satisfied-at-end-of-loop'),
+    _mut('ge-args-continue-no-bump', 'parse_args', r'p\.bump\(\);(\s*continue;)', r'\1', r'parse_args:decreases-not-satisfied-at-continue'),
+    _mut('ge-table-sep-no-bump', 'parse_table_expr', r'p\.bump\(\); // consume separator', '', r'parse_table_expr:decreases-not-satisfied-at-end-of-loop'),
+    _mut('ge-lookahead-no-count', 'parse_table_expr', r'lookahead_count \+= 1;', '', r'parse_table_expr:decreases-not-satisfied-at-end-of-loop'),
+    _mut('ge-param-comma-no-bump', 'parse_param_list', r'(if p\.current_token\(\) == LuaTokenKind::TkComma \{)\s*p\.bump\(\);', r'\1', r'parse_param_list:decreases-not-satisfied-at-end-of-loop'),
+    _mut('ge-suffix-call-no-progress', 'parse_args', r'(LuaTokenKind::TkString \| LuaTokenKind::TkLongString => \{\s*let m1 = p\.mark\(LuaSyntaxKind::LiteralExpr\);)\s*p\.bump\(\);', r'\1',
+         r'C02\.expr\.progress'),
+    # ---- a recovery loop that no longer stops at the end of the input bumps at TkEof (index panic in parse_trivia_tokens) ----
     _mut('ge-recover-no-eof-stop', 'recover_to_table_boundary', r'\s*\| LuaTokenKind::TkEof', '', r'recover_to_table_boundary:precondition-not-satisfied\{p\.bump'),
     _mut('ge-field-recovery-no-eof-stop', 'parse_field_with_recovery', r'(TkRightBrace)\s*\| LuaTokenKind::TkEof', r'\1', r'parse_field_with_recovery:precondition-not-satisfied\{p\.bump'),
     _mut('ge-param-recovery-no-eof-stop', 'parse_param_list', r'(TkRightParen)\s*\| LuaTokenKind::TkEof', r'\1', r'parse_param_list:precondition-not-satisfied\{p\.bump'),
     _mut('ge-args-recovery-no-eof-stop', 'parse_args', r'(TkRightParen)\s*\| LuaTokenKind::TkEof', r'\1', r'parse_args:precondition-not-satisfied\{p\.bump'),
-    _mut('ge-args-continue-no-bump', 'parse_args', r'p\.bump\(\);(\s*continue;)', r'\1', r'parse_args:decreases-not-satisfied-at-continue|C02\.expr\.args-loop-terminates'),
-    _mut('ge-table-sep-no-bump', 'parse_table_expr', r'p\.bump\(\); // consume separator', '', r'C02\.expr\.field-loop-terminates|parse_table_expr:could-not-prove-termination'),
-    _mut('ge-lookahead-no-count', 'parse_table_expr', r'lookahead_count \+= 1;', '', r'C02\.expr\.lookahead-loop-terminates'),
-    _mut('ge-suffix-call-no-progress', 'parse_args', r'(LuaTokenKind::TkString \| LuaTokenKind::TkLongString => \{\s*let m1 = p\.mark\(LuaSyntaxKind::LiteralExpr\);)\s*p\.bump\(\);', r'\1',
-         r'C02\.expr\.progress'),
-    _mut('ge-param-comma-no-bump', 'parse_param_list', r'(if p\.current_token\(\) == LuaTokenKind::TkComma \{)\s*p\.bump\(\);', r'\1', r'C02\.expr\.param-loop-terminates'),
     # ---- preconditions of the driver / marker API (no panic) ----
     _mut('ge-field-double-bump-unguarded', 'parse_field_with_recovery', r'if p\.peek_next_token\(\) == LuaTokenKind::TkAssign \{', 'if p.peek_next_token() != LuaTokenKind::TkAssign {',
          r'parse_field_with_recovery:precondition-not-satisfied\{p\.bump'),
-    _mut('ge-table-bump-at-eof', 'parse_args', r'LuaTokenKind::TkLeftBrace => match parse_table_expr\(p\)', '_ => match parse_table_expr(p)', r'parse_args:precondition-not-satisfied\{parse_table_expr'),
+    _mut('ge-table-bump-at-eof', 'parse_args', r'LuaTokenKind::TkLeftBrace => match parse_table_expr\(p\)', '_ => match parse_table_expr(p)',
+         r'parse_args:precondition-not-satisfied\{_ => match parse_table_expr'),
     _mut('ge-param-list-eof-close', 'parse_short_function', r'parse_param_list\(p, LuaTokenKind::TkBitOr, LuaTokenKind::TkBitOr\)', 'parse_param_list(p, LuaTokenKind::TkBitOr, LuaTokenKind::TkEof)',
          r'parse_short_function:precondition-not-satisfied\{parse_param_list'),
     _mut('ge-extra-node-end', 'parse_param_name', r'(p\.bump\(\);\s*\}\s*LuaTokenKind::TkDots)', r'p.bump(); p.push_node_end(); p.push_node_end(); } LuaTokenKind::TkDots',
          r'parse_param_name:precondition-not-satisfied'),
     _mut('ge-precede-dead-marker', 'parse_name_or_special_function', r'let m1 = cm\.precede\(p, special_kind\);', 'let m1 = CompleteMarker { start: cm.start + 1, kind: cm.kind }.precede(p, special_kind);',
          r'parse_name_or_special_function:precondition-not-satisfied'),
-    _mut('ge-set-kind-after-undo-position', 'parse_table_expr', r'let mut m = p\.mark\(LuaSyntaxKind::TableEmptyExpr\);', 'let mut m = p.mark(LuaSyntaxKind::TableEmptyExpr); m.position += 1;',
+    _mut('ge-set-kind-dead-marker', 'parse_table_expr', r'let mut m = p\.mark\(LuaSyntaxKind::TableEmptyExpr\);', 'let mut m = p.mark(LuaSyntaxKind::TableEmptyExpr); m.position += 1;',
          r'parse_table_expr:precondition-not-satisfied'),
     _mut('ge-special-text-at-eof', 'parse_suffixed_expr', r'LuaTokenKind::TkName => parse_name_or_special_function\(p\)\?,', 'LuaTokenKind::TkName | LuaTokenKind::TkEof => parse_name_or_special_function(p)?,',
-         r'parse_suffixed_expr:precondition-not-satisfied\{parse_name_or_special_function'),
+         r'parse_suffixed_expr:precondition-not-satisfied\{.*parse_name_or_special_function'),
     _mut('ge-short-function-wrong-token', 'parse_simple_expr', r'LuaTokenKind::TkLogicalOr \| LuaTokenKind::TkBitOr(\s*if)', r'LuaTokenKind::TkLogicalOr | LuaTokenKind::TkBitOr | LuaTokenKind::TkEof\1',
          r'parse_simple_expr:precondition-not-satisfied\{parse_short_function'),
-    _mut('ge-brace-count-underflow', 'parse_table_expr', r'let mut brace_count = 1;', 'let mut brace_count = i32::MIN;', r'parse_table_expr:.*(overflow|underflow|arithmetic)'),
+    _mut('ge-brace-count-underflow', 'parse_table_expr', r'let mut brace_count = 1;', 'let mut brace_count = i32::MIN;', r'parse_table_expr:invariant-not-satisfied-before-loop\{1 <= brace_count'),
+    # ---- labelled postconditions ----
+    _mut('ge-result-dead-marker', 'parse_param_name', r'Ok\(m\.complete\(p\)\)\s*\}\s*$', 'let cm = m.complete(p); Ok(CompleteMarker { start: cm.start + 1, kind: cm.kind }) }',
+         r'C02\.expr\.result-marker-live'),
+    _mut('ge-name-no-bump', 'parse_name_or_special_function', r'p\.bump\(\);\s*let mut cm = m\.complete\(p\);', 'let mut cm = m.complete(p);', r'C02\.expr\.progress'),
+    _mut('ge-short-fn-setkind-no-bump', 'parse_short_function', r'(p\.set_current_token_kind\(LuaTokenKind::TkEmptyShortParam\);)\s*p\.bump\(\);', r'\1',
+         r'parse_short_function:postcondition-not-satisfied'),
+    # (no mutant for the array index in BinaryOperator::get_priority: this Verus reports an out-of-range array index as "precondition not met:
+    #  index in bounds for this access", which vc/verus.py does not list among the violation messages -> such a run is UNDECIDED (exit 2), not 1)
 ]
-TRUSTED = []
+TRUSTED = [
+    'expr.rs error REPORTING is rewritten to the no-op vx_note_error() (rules ge-drop-push-error, ge-drop-error-msg): `p.push_error(LuaParseError::'
+    'syntax_error_from(&t!(..), range))` appends to `errors`, a field projected out of LuaParser; the rules check that the dropped arguments call '
+    'nothing but t!, p.current_token(), p.current_token_range(). TRUSTED: t! / syntax_error_from / LuaParser::push_error do not panic and touch nothing else',
+    'rewrite rules of the expr side (doc strings in expr_items.py): ge-match-guard-if-chain (guarded match on a LuaTokenKind value -> if/else-if chain in arm '
+    'order, parse_simple_expr), ge-local-const (`const N: T = lit;` item statement -> `let`), ge-drop-push-error, ge-drop-error-msg',
+    'ParserConfig::support(feature): result uninterpreted (sp_support); ParserConfig::get_special_function(name): total, result unconstrained '
+    '(match on string literals, else HashMap::get(..).unwrap_or(..)); LuaParser::current_token_text (shim of the stat side): requires token_index < len '
+    '(PROVED at the call site in parse_name_or_special_function), the str slice at a token range is trusted not to panic (lexer ranges, unit c01_reader)',
+    'depth counters LuaParser::{enter_ternary,leave_ternary,inside_ternary_branch,enter_paren,leave_paren,paren_depth_exceeds_ternary_ref} are shims '
+    '(the three counter fields are projected out of the struct): frame = no kept field changes; NOT PROVED: `ternary_depth += 1` / `paren_depth += 1` '
+    'do not overflow (argument: usize counters starting at 0, each increment directly follows a `bump`, tokens.len() < 2^31); the boolean results are '
+    'unconstrained, so both outcomes of `inside_ternary_branch() && !paren_depth_exceeds_ternary_ref()` are covered',
+    'derive(PartialEq) on the field-less enums UnaryOperator / BinaryOperator / LuaFeatures / SpecialFunction / LuaType*Operator is structural equality '
+    '(Verus `Structural` marker added to the derive list; Debug and #[repr] dropped)',
+    'gfirst (events[0] is a NodeStart) and nosoft (no TkContinue/TkConst token at or after the cursor: stat side, see gspec.rs) are PRECONDITIONS of the '
+    'three pub fns parse_expr / parse_simple_expr / parse_closure_expr: established by parse_chunk (gfirst, proved in the base item) and by the callers '
+    'in stat.rs (proved in c02_gstat / c02_grammar); the preconditions of the private fns (parse_table_expr at `{`, parse_name_or_special_function at a name, '
+    'parse_short_function at name / `||` / `|`, parse_param_list with non-Eof delimiters) are proved at every call site in this unit',
+]
 ALLOW = []
-NOT_COVERED = []
+NOT_COVERED = [
+    'expr.rs: STACK DEPTH of the recursion (termination is proved, bounded stack use is not: deeply nested input overflows the stack, known finding '
+    'C02 deep-nesting, replay/c02) and the "roughly linear time" part of C02 (only termination is proved; every loop consumes a token per iteration '
+    'or is bounded by MAX_LOOKAHEAD = 50)',
+    'expr.rs: the recursion THROUGH stat.rs/mod.rs (parse_closure_expr / parse_short_function -> parse_block -> parse_stats -> .. -> parse_expr) is checked '
+    'against the decreases clauses only in the combined unit c02_grammar; in c02_gexpr the stat.rs/mod.rs fns are external (assumed contracts)',
+    'expr.rs: content of the error list (which errors are reported, their ranges) and the shape of the tree beyond what ginv/gstep say '
+    '(every token emitted exactly once in order, events_ok preserved, markers balanced enough for no underflow)',
+]
